@@ -46,7 +46,10 @@ def main():
                          ("SLR", dict(itemset_type=LR_0, prefer_shifts=False, prefer_shifts_over_empty=False)),
                          ("LALR-ps", dict(itemset_type=LR_1, prefer_shifts=True, prefer_shifts_over_empty=True))):
             try:
-                out[f"table/{name}:{text}"] = table_digest(g, **kw)
+                d1 = table_digest(g, **kw)
+                # repeated construction in one process: the same text loaded and built a second time
+                d2 = table_digest(Grammar.from_string(text), **kw)
+                out[f"table/{name}:{text}"] = d1 if d1 == d2 else f"in-process-differs {d1} {d2}"
             except Exception as e:  # noqa
                 out[f"table/{name}:{text}"] = "exc " + type(e).__name__
     # forests: index order of the trees
